@@ -38,6 +38,9 @@ class Desurvey(Scenario):
             cx.assume(d[0] >= 0)
             for i in range(n - 1):
                 cx.assume(d[i] <= d[i + 1])
+            rep = self.params.get("repeat")
+            if rep is not None:         # a station repeated at the same depth with another direction (a kink in the path)
+                cx.assume(eq(d[rep], d[rep + 1]))
             for q in qs:
                 cx.assume(q >= 0)
             dh.surveys = mk_array(X, [x for i in range(n) for x in (d[i], az[i], dp[i])], (n, 3), "float64")
@@ -327,6 +330,7 @@ def is_nan_(x):
 def scenarios(tier, seed):
     if tier == "quick":
         return [Desurvey(rows=1, queries=2), Desurvey(rows=2, queries=1), Desurvey(rows=2, queries=2),
+                Desurvey(rows=3, queries=1, repeat=0), Desurvey(rows=3, queries=1, repeat=1),
                 MatchValues(n=3, m=1), MatchValues(n=2, m=2), AddDepthData(n1=2, n2=1), AddDepthData(n1=1, n2=2),
                 AddIntervalData(n1=2, n2=0), AddIntervalData(n1=1, n2=1),
                 AddMixed(order=["interval", "depth"]), AddMixed(order=["depth", "interval", "depth"]),
